@@ -741,9 +741,12 @@ where
                     //now we can empty the buffer (on next iteration of the main loop)
                     self.emptybuffer = true;
                     // but first we prune unneeded items:
-                    if self.end < 0 && self.begin < 0 {
-                        //discard items from the begin which we do not want
-                        for _ in 0..self.begin.abs() {
+                    if self.begin < 0 && self.end != 0 {
+                        //a negative begin is relative to the end of all results (self.cursor holds their total number by now):
+                        //discard the buffered items that come before it
+                        let total = self.cursor as usize;
+                        let excess = total.saturating_sub(self.begin.unsigned_abs());
+                        for _ in 0..excess {
                             self.buffer.pop_front();
                         }
                     }
